@@ -94,6 +94,8 @@ def random_shape(rng):
 
 def check(rx, sto, rng, n_states=6):
     p = {'kf': rng.uniform(0.2, 3), 'Kd': rng.uniform(0.5, 4), 'nh': rng.choice([1.0, 2.0, 2.5, 3.0])}
+    if rng.random() < 0.5:
+        p['k'] = rng.uniform(0.2, 3)       # a global parameter whose name is contained in other identifiers (the dummy ids of numeric constants contain "_k_")
     M = Model(species=list(SPECIES), reactions=[rx], parameters=list(p.items()), initial_condition_dict={s: rng.randint(0, 9) for s in SPECIES})
     doc, _ = M.generate_sbml_model(stochastic_model=sto)
     text = libsbml.writeSBMLToString(doc)
